@@ -939,10 +939,20 @@ def prog_coq_case(inp, stdout, nums):
                                             "; ".join("(%d)%%Z" % x for x in (nums or [])))
 
 
-def prog_eval(workdir, fn, cases, case_type, nshards=None):
-    """cases: list of Corr/C01p case strings -> (ok, {index: code}, log)"""
+def prog_eval(workdir, fn, cases, case_type, nshards=None, _retry=True):
+    """cases: list of Corr/C01p case strings -> (ok, {index: code}, log).
+    Another check running at the same time may have rebuilt a generated table (Gen/*.vo) after this
+    check's proof stage: on `inconsistent assumptions` the Corr target is rebuilt under the lock and
+    the evaluation repeated once."""
     if not cases:
         return True, {}, ""
+    if _retry:
+        ok, bad, log = prog_eval(workdir, fn, cases, case_type, nshards, _retry=False)
+        if not ok and "inconsistent assumptions" in log:
+            with vlib.Lock("coq"):
+                vlib.coq_make(["Corr/C01p.vo"])
+            return prog_eval(workdir, fn, cases, case_type, nshards, _retry=False)
+        return ok, bad, log
     idx = list(range(len(cases)))
     shards = vlib.shard(idx, nshards or vlib.NCPU)
     hdr = (vlib.COQ_PRINT_HDR + "From Coq Require Import String List ZArith NArith.\nImport ListNotations.\n"
